@@ -170,6 +170,14 @@ def sample_messages(ctx):
         if kw:
             out.append(("kw", key, mode, kw))
         out.append(("none", key, mode))
+    # code paths that consult or extend shared tables: configuration key/value lists with documented and
+    # undocumented key ids (every size code), in parse and in construction
+    for cid, mode in ((0x8b, 0), (0x8a, 1)):
+        for code, n in ((1, 1), (2, 1), (3, 2), (4, 4), (5, 8)):
+            kid = (code << 28) | 0x0990099
+            body = bytes([0, 1, 0, 0]) + kid.to_bytes(4, "little") + bytes(range(1, n + 1)) + (0x20910005).to_bytes(4, "little") + b"\x01"
+            out.append(("parse", gen.ubx_frame(6, cid, body), mode))
+            out.append(("payload", bytes([6, cid]), mode, body))
     out.append(("payload", b"\x06\x31", 2, b"\x00"))          # CFG-TP5 POLL (former debug print)
     out.append(("kw", b"\x06\x31", 2, {"tpIdx": 1}))
     return out
@@ -237,6 +245,10 @@ def run(ctx):
             probes.append(sweep.build_cmd(sp[1], sp[2], True, sp[3]))
         elif sp[0] == "payload":
             probes.append("CONSTRUCT %s %s %d 1 PAYLOAD %s" % (sp[1][0:1].hex(), sp[1][1:2].hex(), sp[2], gen.hx(sp[3])))
+    # lookups that must keep failing / keep their answer whatever was parsed before
+    for code in (1, 2, 3, 4, 5):
+        probes.append("CFGNAME2KEY CFG_0x%x" % ((code << 28) | 0x0990099))
+        probes.append("CFGKEY2NAME %x" % ((code << 28) | 0x0990099))
     ctx.correspond(probes, canon=lambda c, l: impl.canon_model_line(l), nontrivial=lambda c, o: o.startswith("OK"), label="PROBE")
     ctx.disagreements = [d for d in ctx.disagreements if d["model"] != "RAISE Other"]
     fresh = [impl.impl_exec(c) for c in probes]
